@@ -322,11 +322,11 @@ type c11Obs struct {
 // c11Seen: one channel's observation of one case.
 type c11Seen struct {
 	Obs     c11Obs `json:"obs"`
-	Ch      int    `json:"ch"`  // del: 1 changed, 0 not; else 2
-	Eq      int    `json:"eq"`  // equal to an equal map built in another order (both directions)
-	Neq     int    `json:"neq"` // 1 when it claims equality with a different map
-	It      string `json:"it"`  // loop cases: the pairs the loop visited
-	Acc     int    `json:"acc"` // constant cases: 1 the store into the constant was accepted, 0 refused
+	Ch      int    `json:"ch"`   // del: 1 changed, 0 not; else 2
+	Eq      int    `json:"eq"`   // equal to an equal map built in another order (both directions)
+	Neq     int    `json:"neq"`  // 1 when it claims equality with a different map
+	It      string `json:"it"`   // loop cases: the pairs the loop visited
+	Acc     int    `json:"acc"`  // constant cases: 1 the store into the constant was accepted, 0 refused
 	Prev    string `json:"prev"` // the values the variable held earlier (and sibling results), printed after the operation
 	HistErr string `json:"hist_err,omitempty"`
 	OpErr   string `json:"op_err,omitempty"`
